@@ -1,4 +1,5 @@
 import CppUModel.Proofs.MockC
+import CppUModel.Proofs.MockCAligned
 /-!
 # C19 — the C mocking interface behaves like the C++ one
 
@@ -101,6 +102,15 @@ theorem cpp_getter_shapes :
     (Req.actGetters.all (fun p => Gen.CMock.actGetters.lookup p.1 == some p.2) = true) ∧
     Gen.CMock.supGetters.length = Req.supGetters.length ∧ Gen.CMock.actGetters.length = Req.actGetters.length ∧
     Gen.CMock.shapes = Req.shapes := by decide +kernel
+
+/-- Argument order: every forwarder whose C++ call has two arguments of the same type (so that exchanging them
+    compiles silently: value/tolerance, name/value strings, type/name strings) passes its parameters in the required
+    order; and the parameters themselves are declared in the order the header documents. -/
+theorem argument_order_correct :
+    (Gen.CMock.forwarders.filter (fun f => hasRepeatedType (callArgs f.body))).map
+        (fun f => (f.name, (callArgs f.body).map (·.1))) = Req.argumentOrder ∧
+    (Gen.CMock.forwarders.filter (fun f => hasRepeatedType (callArgs f.body))).all
+        (fun f => (Req.findFwd f.name).map (·.params) == some f.params) = true := by decide +kernel
 
 /-! ## adaptor nodes (custom-type comparators and copiers installed through the C interface) -/
 
@@ -303,6 +313,68 @@ theorem c_run_eq_cpp_run (K : CppMock) (law : Lawful K) (ss : List CStmt) (core 
   have h := run_sim K law ss ⟨core, []⟩ ⟨core, []⟩ rfl rfl hok
   simp only [observeC, observeX, h.1, h.2]
 
+/-! ### the aligned class is decidable from the scenario text -/
+
+theorem runOk_of_stopped (K : CppMock) (c : CState K) (ss : List CStmt) (h : K.stopped c.core.m = true) :
+    RunOk K c ss := by
+  cases ss with
+  | nil => trivial
+  | cons s rest => intro h'; rw [h] at h'; cases h'
+
+theorem stepOk_of_stmtOk (K : CppMock) (sl : ScopeLaws K) (sy : Sym) (st : Core K) (s : CStmt)
+    (inv : SymInv K sl sy st) (h : stmtOk sy s = true) : StepOk K st s := by
+  cases s with
+  | mockC => trivial
+  | mockScope _ => trivial
+  | call tbl field args =>
+    simp only [stmtOk, Bool.and_eq_true, List.contains_iff_mem] at h
+    refine ⟨h.1, ?_⟩
+    cases hf : Req.forwarderOf tbl field with
+    | none => trivial
+    | some fw =>
+      have h2 := h.2
+      simp only [hf, Bool.or_eq_true, Bool.not_eq_true', Bool.and_eq_true, beq_iff_eq] at h2
+      intro hn
+      rcases h2 with h2 | ⟨h3, h4⟩
+      · rw [hn] at h2; cases h2
+      · cases hact : sy.act with
+        | none => simp [hact] at h3
+        | some s0 =>
+          obtain ⟨a, ha, hl⟩ := inv.act s0 hact
+          exact ⟨s0, a, by rw [← inv.cur, ← h4, hact], ha, hl⟩
+
+theorem alignedFrom_runOk (K : CppMock) (law : Lawful K) (sl : ScopeLaws K) :
+    ∀ (ss : List CStmt) (sy : Sym) (c : CState K), SymInv K sl sy c.core → alignedFrom sy ss = true → RunOk K c ss
+  | [], _, _, _, _ => trivial
+  | s :: rest, sy, c, inv, hal => by
+    intro hns
+    simp only [alignedFrom, Bool.and_eq_true] at hal
+    have hstep := stepOk_of_stmtOk K sl sy c.core s inv hal.1
+    refine ⟨hstep, ?_⟩
+    cases hsy : symStepX sy (toCpp s) with
+    | none => simp [hsy] at hal
+    | some sy' =>
+      have hrest := hal.2
+      simp only [hsy] at hrest
+      have hcore : (stepC K c s).core = (execX K c.core (toCpp s)).1 := (step_sim K law c.core s hstep).1
+      by_cases hst : K.stopped (stepC K c s).core.m = true
+      · exact runOk_of_stopped K _ rest hst
+      · apply alignedFrom_runOk K law sl rest sy' (stepC K c s) ?_ hrest
+        rw [hcore]
+        exact inv_step K sl sy sy' c.core (toCpp s) inv hsy (by rw [← hcore]; simpa using hst)
+
+/-- **`Aligned` (a Bool computed from the scenario text) implies `RunOk`**, for every C++ mock that is lawful and obeys
+    the scope laws, started with checking on and `currentMockSupport` not yet set. -/
+theorem aligned_implies_runOk (K : CppMock) (law : Lawful K) (sl : ScopeLaws K) (ss : List CStmt) (m : K.M)
+    (hp : sl.plain m) (h : Aligned ss = true) : RunOk K ⟨⟨m, none, none, none⟩, []⟩ ss :=
+  alignedFrom_runOk K law sl ss ⟨none, none⟩ _ ⟨rfl, hp, fun s hs => by cases hs⟩ h
+
+/-- C run ≡ C++ run on the decidable class. -/
+theorem c_run_eq_cpp_run_aligned (K : CppMock) (law : Lawful K) (sl : ScopeLaws K) (ss : List CStmt) (m : K.M)
+    (hp : sl.plain m) (h : Aligned ss = true) :
+    observeC (runC K ⟨⟨m, none, none, none⟩, []⟩ ss) = observeX (runX K ⟨⟨m, none, none, none⟩, []⟩ (ss.map toCpp)) :=
+  c_run_eq_cpp_run K law ss _ (aligned_implies_runOk K law sl ss m hp h)
+
 /-- the same theorem under the name the conventions ask for: it is the part of the full statement below that holds
     on the current source (the class excluded is exactly `¬ RunOk`: a return-value getter asked while the static
     actual call is not the last call of the selected scope) -/
@@ -458,6 +530,10 @@ theorem runOkB_sound : ∀ (ss : List CStmt) (st : CState Toy), runOkB st ss = t
 
 /-- the scenario meets the hypotheses of `c_run_eq_cpp_run` ... -/
 example : RunOk Toy ⟨⟨(0, []), none, none, none⟩, []⟩ alignedScenario := runOkB_sound _ _ (by decide +kernel)
+
+/-- ... it is in the syntactic class ... -/
+example : Aligned alignedScenario = true := by decide +kernel
+example : Aligned witnessSupportGetter = false ∧ Aligned witnessActualHas = false := by decide +kernel
 
 /-- ... while the two witnesses of the findings do not (their getters are asked on another scope) -/
 example : runOkB ⟨⟨(0, []), none, none, none⟩, []⟩ witnessSupportGetter = false := by decide +kernel
